@@ -116,6 +116,13 @@ def norm(n, env, depth=0):
                 return norm(init, ienv, depth + 1)
             return ("var", l)
         d = n["res"].get("def")
+        if CONSTS is not None and n["res"].get("dk") in ("Const", "AssocConst") and depth < 50:
+            # a named constant of the crate stands for its (small, literal) value: `ACCEPT_LESS` is `&[Ordering::Less]`
+            st = CONSTS(d)
+            if st is not None and st.get("body") is not None:
+                b = H.strip(st["body"])
+                if H.kind(b) in ("Array", "Lit", "Path", "Tup") and sum(1 for _ in H.walk(b)) <= 40:
+                    return norm(b, Env(), depth + 1)
         return ("path", d)
     if k == "Tup":
         return ("tup",) + tuple(norm(x, env, depth + 1) for x in n["es"])
@@ -447,8 +454,13 @@ NO_INLINE = {"check_ordering", "get_function_def", "get_pairs", "evaluate_ast", 
              "collect_free_variables", "flatten_spread_value", "parse_record_entry"}
 
 
+CONSTS = None  # fn(def path) -> static/const fact of the crate, set together with INLINE
+
+
 def default_inline(core):
     """policy for INLINE: look through private free functions of blots-core that are not part of the rules' own vocabulary"""
+    global CONSTS
+    CONSTS = lambda d: getattr(core, "statics", {}).get(d)
     def pol(d):
         if not (d or "").startswith("blots_core::") or H.last(d) in NO_INLINE:
             return None
